@@ -662,6 +662,142 @@ theorem blob_path_confined_cache (rc : List Bytes) (hrc : rc ≠ []) (hs : ∀ c
     · exact safe_blobs
     · exact hall c h
 
+/-! ## 9b. bare round trip of the new parser under the repaired validity -/
+
+def noSep (s : Bytes) : Prop := ∀ c ∈ s, (c == cSlash || c == cColon) = false
+
+theorem loop_none (fuel : Nat) (hf : 0 < fuel) (m t0 : Bytes) (hm : noSep m) :
+    parseNLoop fuel m t0 = { model := m, tag := t0 } := by
+  cases fuel with
+  | zero => omega
+  | succ k => simp only [parseNLoop, splitLast_none _ m hm]
+
+theorem loop_colon (fuel : Nat) (B t t0 : Bytes) (ht : noSep t) :
+    parseNLoop (fuel + 1) (B ++ cColon :: t) t0 = parseNLoop fuel B t := by
+  have hcc : (cColon == cColon) = true := by decide
+  simp only [parseNLoop, splitLast_append _ B t cColon (by decide) ht, hcc, if_true]
+
+theorem loop_slash (fuel : Nat) (hf : 0 < fuel) (P m t0 : Bytes) (hm : noSep m) :
+    parseNLoop fuel (P ++ cSlash :: m) t0 =
+      match splitLast (· == cSlash) P with
+      | some (h, n, _) => { host := h, ns := n, model := m, tag := t0 }
+      | none => { host := [], ns := P, model := m, tag := t0 } := by
+  have hsc : (cSlash == cColon) = false := by decide
+  cases fuel with
+  | zero => omega
+  | succ k =>
+    simp only [parseNLoop, splitLast_append _ P m cSlash (by decide) hm, hsc, Bool.false_eq_true, if_false]
+    rfl
+
+theorem noSep_of_charsOk {k : Kind} {s : Bytes} (hk : k ≠ .host) (hk' : k ≠ .digest) (h : charsOk k s = true) :
+    noSep s := by
+  intro c hc
+  have h1 := restOk_not_bad k c (charsOk_all k s h c hc)
+  have h2 := restOk_not_colon k c hk hk' (charsOk_all k s h c hc)
+  have h3 : c ≠ cSlash := by intro e; subst e; revert h1; decide
+  simp [h3, h2, cColon] 
+
+
+/-- **names, bare round trip (partial: guard = the repaired validity).**  For EVERY name `n` (not only parse
+    results): if `n` is valid and does not have a host without a namespace — i.e. `isValidNv true n`, the
+    validity after proposed_fixes/C13-N1.patch — then `Parse(n.String()) = n`.  Without the guard the
+    statement is false (`N1_bare_roundtrip_witness`). -/
+theorem roundtrip_names_bare_partial (n : Name) (hv : isValidNv true n = true) : parseN (toStr n) = n := by
+  obtain ⟨h, ns, m, t⟩ := n
+  simp only [isValidNv, isValidN, validPartN, Bool.and_eq_true, Bool.or_eq_true, Bool.not_eq_true',
+    decide_eq_true_eq, Bool.true_and, Bool.and_eq_false_iff, Bool.not_eq_false'] at hv
+  obtain ⟨⟨⟨⟨hh, hn⟩, ht⟩, hmne, hmlen, hmc⟩, hguard⟩ := hv
+  have hm : noSep m := noSep_of_charsOk (by decide) (by decide) hmc
+  have hlen : (toStr ⟨h, ns, m, t⟩).length ≤ maxNameLength := by
+    have a : h.length ≤ 350 := by
+      rcases hh with hh | hh
+      · simp [List.isEmpty_iff] at hh; simp [hh]
+      · exact hh.1
+    have b : ns.length ≤ 80 := by
+      rcases hn with hn | hn
+      · simp [List.isEmpty_iff] at hn; simp [hn]
+      · exact hn.1
+    have c : t.length ≤ 80 := by
+      rcases ht with ht | ht
+      · simp [List.isEmpty_iff] at ht; simp [ht]
+      · exact ht.1
+    have d : m.length ≤ 80 := hmlen
+    simp only [toStr, maxNameLength]
+    split <;> split <;> split <;> simp only [List.length_append, List.length_cons, List.length_nil] <;> omega
+  unfold parseN
+  rw [if_neg (by omega)]
+  cases t with
+  | nil =>
+    cases ns with
+    | nil =>
+      cases h with
+      | nil => simp only [toStr, List.isEmpty_nil, if_true, List.nil_append, List.append_nil]
+               exact loop_none _ (by omega) m [] hm
+      | cons x xs => simp at hguard
+    | cons y ys =>
+      have hns : noSep (y :: ys) := by
+        rcases hn with hn | hn
+        · simp at hn
+        · exact noSep_of_charsOk (by decide) (by decide) hn.2
+      have hnsl : ∀ c ∈ (y :: ys), ((fun c => c == cSlash) c) = false := by
+        intro c hc; have := hns c hc; simp only [Bool.or_eq_false_iff] at this; exact this.1
+      cases h with
+      | nil =>
+        simp only [toStr, List.isEmpty_nil, List.isEmpty_cons, if_true, Bool.false_eq_true, if_false,
+          List.nil_append, List.append_nil]
+        have e : (y :: ys ++ [cSlash]) ++ m = (y :: ys) ++ cSlash :: m := by simp
+        rw [e, loop_slash _ (by omega) (y :: ys) m [] hm, splitLast_none _ _ hnsl]
+      | cons x xs =>
+        have hhs : ∀ c ∈ (x :: xs), c ≠ cSlash := by
+          rcases hh with hh | hh
+          · simp at hh
+          · exact (charsOk_safe .host _ (by simp) hh.2).noSlash
+        simp only [toStr, List.isEmpty_cons, Bool.false_eq_true, if_false, List.isEmpty_nil, if_true,
+          List.append_nil]
+        have e : (x :: xs ++ [cSlash]) ++ ((y :: ys ++ [cSlash]) ++ m)
+            = ((x :: xs) ++ cSlash :: (y :: ys)) ++ cSlash :: m := by simp
+        rw [e, loop_slash _ (by omega) _ m [] hm,
+          splitLast_append _ (x :: xs) (y :: ys) cSlash (by simp) hnsl]
+  | cons z zs =>
+    have htn : noSep (z :: zs) := by
+      rcases ht with ht | ht
+      · simp at ht
+      · exact noSep_of_charsOk (by decide) (by decide) ht.2
+    cases ns with
+    | nil =>
+      cases h with
+      | nil =>
+        simp only [toStr, List.isEmpty_nil, List.isEmpty_cons, if_true, Bool.false_eq_true, if_false,
+          List.nil_append]
+        rw [loop_colon _ m (z :: zs) [] htn]
+        exact loop_none _ (by simp only [List.length_append, List.length_cons]; omega) m _ hm
+      | cons x xs => simp at hguard
+    | cons y ys =>
+      have hns : noSep (y :: ys) := by
+        rcases hn with hn | hn
+        · simp at hn
+        · exact noSep_of_charsOk (by decide) (by decide) hn.2
+      have hnsl : ∀ c ∈ (y :: ys), ((fun c => c == cSlash) c) = false := by
+        intro c hc; have := hns c hc; simp only [Bool.or_eq_false_iff] at this; exact this.1
+      cases h with
+      | nil =>
+        simp only [toStr, List.isEmpty_nil, List.isEmpty_cons, if_true, Bool.false_eq_true, if_false,
+          List.nil_append]
+        have e : (y :: ys ++ [cSlash]) ++ (m ++ cColon :: z :: zs)
+            = ((y :: ys) ++ cSlash :: m) ++ cColon :: (z :: zs) := by simp
+        rw [e, loop_colon _ _ (z :: zs) [] htn, loop_slash _ (by simp only [List.length_append, List.length_cons]; omega) (y :: ys) m _ hm,
+          splitLast_none _ _ hnsl]
+      | cons x xs =>
+        have hhs : ∀ c ∈ (x :: xs), c ≠ cSlash := by
+          rcases hh with hh | hh
+          · simp at hh
+          · exact (charsOk_safe .host _ (by simp) hh.2).noSlash
+        simp only [toStr, List.isEmpty_cons, Bool.false_eq_true, if_false]
+        have e : (x :: xs ++ [cSlash]) ++ ((y :: ys ++ [cSlash]) ++ (m ++ cColon :: z :: zs))
+            = (((x :: xs) ++ cSlash :: (y :: ys)) ++ cSlash :: m) ++ cColon :: (z :: zs) := by simp
+        rw [e, loop_colon _ _ (z :: zs) [] htn, loop_slash _ (by simp only [List.length_append, List.length_cons]; omega) _ m _ hm,
+          splitLast_append _ (x :: xs) (y :: ys) cSlash (by simp) hnsl]
+
 /-! ## 10. non-vacuity -/
 
 /-- the hypotheses of the theorems above are met by non-trivial concrete values: a fully qualified name with a
